@@ -880,7 +880,8 @@ func main() {
 	objHistory := func(pat string, texts []string, tag string) {
 		var outs []string
 		var nows []int64
-		for try := 0; try < 40; try++ {
+		cleanRun := false
+		for try := 0; try < 200; try++ {
 			df := dateutil.NewDateFormat(pat)
 			outs, nows = outs[:0], nows[:0]
 			clean := true
@@ -904,8 +905,16 @@ func main() {
 				nows = append(nows, before)
 			}
 			if clean {
+				cleanRun = true
 				break
 			}
+		}
+		if !cleanRun {
+			// every attempt straddled a millisecond tick (busy machine): the clock readings of the calls are not
+			// known exactly, so nothing is asserted about this history — never a verdict from timing
+			rep.Count("F:skipped-clock-tick-during-history")
+			objInstants = nil
+			return
 		}
 		if len(objInstants) == len(texts) {
 			for k, t := range objInstants {
@@ -1123,7 +1132,8 @@ func main() {
 			rep.Evaluations++
 			if rng.Chance(30) {
 				got := dateutil.SetServerTime(target, 1.0)
-				if got < d-5 || got > d || dateutil.GetDelta() != got {
+				sys2 := dateutil.SystemNow()
+				if got < target-sys2 || got > d || dateutil.GetDelta() != got { // serverTime - SystemNow() for a clock reading between the two measurements
 					rep.Fail("property", "SetServerTime:delta", fmt.Sprintf("SetServerTime(%d, 1.0) = %d, GetDelta() = %d, expected serverTime - SystemNow() ≈ %d", target, got, dateutil.GetDelta(), d), rp)
 				}
 				d = got
